@@ -64,7 +64,7 @@ type c09Deploy struct {
 }
 
 func c09Deploys() []c09Deploy {
-	return []c09Deploy{{"rsa", false, "", false}, {"rsa+ed25519", true, "", false}, {"rsa+ed25519-other-passphrase", true, "another passphrase", false}, {"ed25519-in-primary-slot", false, "", true}}
+	return []c09Deploy{{"rsa", false, "", false}, {"rsa+ed25519", true, "", false}, {"rsa+ed25519-other-passphrase", true, "another passphrase", false}, {"ed25519-in-primary-slot", false, "", true}, {"unusable-primary+ed25519", true, "", true}}
 }
 
 func c09World(d c09Deploy, extraTrusted bool) *vfWorld {
@@ -156,6 +156,19 @@ func c09DeployByName(n string) c09Deploy {
 	return c09Deploys()[0]
 }
 
+// c09StageWorld: the sealed server a probe of part (a) runs against.  Stage ""
+// is the server as started; "after-failed-unseal" is a deployment whose Ed25519 CA
+// loads but whose primary key the loader refuses, after the correct passphrase was
+// injected: the injection fails half-way and the server must still be sealed.
+func c09StageWorld(p c09Point) *vfWorld {
+	if p.Deploy == "" {
+		return c09World(c09DeployByName("rsa+ed25519"), p.Extra)
+	}
+	w := c09World(c09DeployByName(p.Deploy), p.Extra)
+	w.DoAdmin(c09Inject(w, c09Pass, "tls-verified"))
+	return w
+}
+
 // (a) one probe of a route while sealed
 func c09SealedProbe(w *vfWorld, p c09Point) (violated bool, key, what, class string) {
 	pt := c06Point{Route: p.Route, Path: p.Path, Method: p.Method, Origin: "absent"}
@@ -177,8 +190,14 @@ func c09SealedProbe(w *vfWorld, p c09Point) (violated bool, key, what, class str
 			q.Form.Set("password", vfUsers["alice"])
 		}
 	}
+	if strings.HasPrefix(p.Cred, "sibling-cookie+") && p.Route == "certGenHandler" {
+		// an SSH certificate for a key of the named type
+		key := map[string]crypto.PublicKey{"sibling-cookie+ed25519-key": vfKeys.userEd.Public(), "sibling-cookie+rsa-key": vfKeys.userRSA.Public(), "sibling-cookie+ec-key": vfKeys.userEC.Public()}[p.Cred]
+		q = vfCertgenReq("alice", "ssh", vfSSHPub(key), "1h")
+		q.Method = p.Method
+	}
 	switch p.Cred {
-	case "sibling-cookie":
+	case "sibling-cookie", "sibling-cookie+ed25519-key", "sibling-cookie+rsa-key", "sibling-cookie+ec-key":
 		// minted by a sibling instance holding the same CA key
 		c := authInfoJWT{Issuer: w.issuer(), Subject: "alice", Audience: []string{w.issuer()}, NotBefore: 1790000000, IssuedAt: 1790000000, Expiration: 1790000000 + 3600, TokenType: "keymaster_auth", AuthType: AuthTypePassword | AuthTypeU2F}
 		q.Cookies = append(q.Cookies, &http.Cookie{Name: authCookieName, Value: w.signClaims(c)})
@@ -250,7 +269,14 @@ func c09PassProbe(d c09Deploy, passName, delivery string) (violated bool, key, w
 		return true, "C09|correct-passphrase-refused|secretInjectorHandler", fmt.Sprintf("status %d", resp.Code), ""
 	}
 	if !unsealed {
-		if after != before {
+		// the correct passphrase on a deployment whose primary key is unusable decrypts
+		// both files and may load the Ed25519 half before it gives up; the statement
+		// asks that the server stays sealed, which part (a) probes in exactly that state
+		partial := passName == "correct" && delivery == "tls-verified" && d.PrimaryEd && d.Ed
+		if partial && len(w.state.SignerIsReady) != 0 {
+			return true, "C09|ready-signal-after-failed-unseal|unsealCA", fmt.Sprintf("%d readiness signals although the primary key was refused", len(w.state.SignerIsReady)), ""
+		}
+		if after != before && !partial {
 			return true, fmt.Sprintf("C09|failed-attempt-changed-signer-state|unsealCA|%s", d.Name), before + " -> " + after, ""
 		}
 		if resp.Code/100 == 2 {
@@ -552,14 +578,19 @@ func init() {
 	vfRegister(&vfeng.Check{
 		ID:    "C09",
 		Level: "model_checking",
-		Rule:  "(a) every service-mux route of the current source and the admin-port handlers x {GET,POST} x {no credential, basic-auth, session cookie and client certificate minted by a sibling holding the same CA key} x {with/without the CA key listed as trusted public key} on a sealed instance: nothing signed leaves, readiness says not ready, signer state unchanged; (b) ~120 passphrase variants (correct, empty, every proper prefix, every single-character deletion / substitution x3 / transposition, suffix, case-folded, NUL/newline, 1 MiB) x {no TLS, TLS without verified chain, verified chain} x {RSA, RSA+Ed25519, Ed25519 sealed with another passphrase, an Ed25519 key in the primary slot (never unsealable)}: only correct+verified unseals, a failed attempt changes no signer-derived field and a later correct attempt works, a second injection has no effect, the published SSH/X.509/JWKS keys include the keys that sign; (d) every subset and order of {own RSA CA key, own Ed25519 CA key, foreign key} already listed as known public keys x {RSA, RSA+Ed25519}: after unsealing every signing key is published exactly once and verifies issued material; (c) stateless model checking under vsched: all schedules (preemption bound 2, thorough 3) of injection threads racing ordinary requests with yield points inside unsealCA/loadSignersFromPemData: exactly one acknowledged transition and readiness signal, no duplicate CA material, no deadlock, ordinary responses complete, vector-clock race analysis of the signer fields",
+		Rule:  "(a) every service-mux route of the current source and the admin-port handlers x {GET,POST} x {no credential, basic-auth, session cookie and client certificate minted by a sibling holding the same CA key} x {with/without the CA key listed as trusted public key} on a sealed instance - as started, and after a correct-passphrase injection that failed half-way (Ed25519 CA loaded, primary key refused) - plus SSH certificate requests for RSA / EC / Ed25519 keys: nothing signed leaves, readiness says not ready, signer state unchanged; (b) ~120 passphrase variants (correct, empty, every proper prefix, every single-character deletion / substitution x3 / transposition, suffix, case-folded, NUL/newline, 1 MiB) x {no TLS, TLS without verified chain, verified chain} x {RSA, RSA+Ed25519, Ed25519 sealed with another passphrase, an Ed25519 key in the primary slot (never unsealable)}: only correct+verified unseals, a failed attempt changes no signer-derived field and a later correct attempt works, a second injection has no effect, the published SSH/X.509/JWKS keys include the keys that sign; (d) every subset and order of {own RSA CA key, own Ed25519 CA key, foreign key} already listed as known public keys x {RSA, RSA+Ed25519}: after unsealing every signing key is published exactly once and verifies issued material; (c) stateless model checking under vsched: all schedules (preemption bound 2, thorough 3) of injection threads racing ordinary requests with yield points inside unsealCA/loadSignersFromPemData: exactly one acknowledged transition and readiness signal, no duplicate CA material, no deadlock, ordinary responses complete, vector-clock race analysis of the signer fields",
 		Assumptions: []string{"a handler panic on a sealed instance is fail-closed and recorded, not a violation of this property", "OpenPGP symmetric encryption (x/crypto/openpgp) is trusted"},
 		Shards: func(tier string) int { return 16 },
 		Run: func(c *vfeng.Ctx) {
 			i := 0
 			// (a)
-			for _, extra := range []bool{false, true} {
-				w := c09World(c09DeployByName("rsa+ed25519"), extra)
+			for _, stage := range []c09Point{{Extra: false}, {Extra: true}, {Deploy: "unusable-primary+ed25519"}, {Deploy: "unusable-primary+ed25519", Extra: true}} {
+				extra := stage.Extra
+				w := c09StageWorld(stage)
+				if w.state.Signer != nil {
+					c.Res.HarnessErr = "stage " + stage.Deploy + " is not sealed"
+					return
+				}
 				type rt struct{ name, path string }
 				var rts []rt
 				for _, r := range w.routes {
@@ -572,12 +603,15 @@ func init() {
 				}
 				for _, r := range rts {
 					for _, m := range []string{"GET", "POST"} {
-						for _, cred := range []string{"none", "basic", "sibling-cookie", "sibling-cert"} {
+						for _, cred := range []string{"none", "basic", "sibling-cookie", "sibling-cert", "sibling-cookie+ed25519-key", "sibling-cookie+rsa-key", "sibling-cookie+ec-key"} {
+							if strings.HasPrefix(cred, "sibling-cookie+") && r.name != "certGenHandler" {
+								continue
+							}
 							i++
 							if !c.Mine(i) {
 								continue
 							}
-							p := c09Point{Part: "sealed", Route: r.name, Path: r.path, Method: m, Cred: cred, Extra: extra}
+							p := c09Point{Part: "sealed", Deploy: stage.Deploy, Route: r.name, Path: r.path, Method: m, Cred: cred, Extra: extra}
 							v, key, what, class := c09SealedProbe(w, p)
 							c.Eval(1)
 							if v {
@@ -646,6 +680,7 @@ func init() {
 				}
 				var outsLast []c09Out
 				var wLast *vfWorld
+				vsched.Stop = c.Expired
 				st := vsched.Explore(bound, 20000, func(prefix []int) *vsched.Exec {
 					ex, outs, w := c09RunSchedule(combo, prefix)
 					outsLast, wLast = outs, w
@@ -668,6 +703,9 @@ func init() {
 				c.Res.Transitions += int64(st.Decisions)
 				c.Res.Traces += int64(st.Executions)
 				c.Count("schedules", int64(st.Executions))
+				if st.TimedOut {
+					c.Inexhaustive("deadline reached inside the schedule exploration")
+				}
 				if st.Capped {
 					c.Inexhaustive(fmt.Sprintf("execution cap reached for %v", combo))
 				}
@@ -680,7 +718,7 @@ func init() {
 			}
 			switch p.Part {
 			case "sealed":
-				w := c09World(c09DeployByName("rsa+ed25519"), p.Extra)
+				w := c09StageWorld(p)
 				defer w.Close()
 				v, key, what, class := c09SealedProbe(w, p)
 				return v, key + " :: " + what + class
